@@ -86,7 +86,7 @@ def scenarios(prop, tier, seed=0):
             L.append(S('c02_p1_desync_desync_sync', [T('A', ('desync', 0), ('desync', 0)), T('B', ('sync', 0))], pool_max=1, R=3, B=16, oracles=BASE + ('order',)))
             L.append(S('c02_p1_desync_try_sync', [T('A', ('desync', 0), ('try_sync', 0)), T('B', ('sync', 0))], pool_max=1, R=3, B=16, oracles=BASE + ('order',)))
     elif prop == 'C10':
-        L.append(S('c10_p2_gate_other', [T('A', ('desync', 0, GATE)), T('B', ('desync', 1))], pool_max=2, queues=2, R=3, B=14,
+        L.append(S('c10_p2_gate_other', [T('A', ('desync', 0, GATE)), T('B', ('desync', 1))], pool_max=2, queues=2, R=(2 if q else 3), B=16,
                    oracles=BASE + ('independent',)))
         if not q:
             L.append(S('c10_p2_gate_sync_other', [T('A', ('desync', 0, GATE)), T('B', ('sync', 0)), T('C', ('desync', 1))], pool_max=2, queues=2, R=3, B=14,
@@ -126,7 +126,7 @@ def scenarios(prop, tier, seed=0):
                    oracles=BASE + ('deadlock', 'fut_results', 'quiescent_complete')))
         L.append(S('c08_p1_drop_unpolled', [T('A', ('future_sync', 0, {'fut': 'ready', 'as': 'f'}), ('drop_fut', 'f'), ('desync', 0))], pool_max=1, R=3, B=18,
                    oracles=BASE + ('deadlock', 'cancelled_clean', 'quiescent_complete')))
-        L.append(S('c08_p1_drop_midway', [T('A', ('future_sync', 0, {'fut': ('gate', 0), 'as': 'f'}), ('poll', 'f'), ('poll', 'f'), ('drop_fut', 'f'), ('desync', 0))], pool_max=1, R=3, B=18,
+        L.append(S('c08_p1_drop_midway', [T('A', ('future_sync', 0, {'fut': ('gate', 0), 'as': 'f'}), ('poll', 'f'), ('poll', 'f'), ('drop_fut', 'f'), ('desync', 0))], pool_max=1, R=(2 if q else 3), B=22,
                    oracles=BASE + ('deadlock', 'cancelled_clean', 'quiescent_complete')))
     elif prop == 'C05':
         MEM = BASE + ('memory', 'drop_waits', 'deadlock')
